@@ -16,7 +16,7 @@ RULE = ("Targets of order 2-5 with non-uniform modes 2-20 (<= 50000 entries, mod
         "for function_interpolate; the function's values are multiplied by 10^k, k in {0,+-3,+-6,-9} (the clause is relative); "
         "(2) result shape N and ||dense(y)-ref|| <= 5 eps ||ref||. Non-trivial: some mode is "
         "smaller than initial rank + kick (wide enrichment QR) or the modes are non-uniform.")
-BUDGET = {"quick": 1600, "thorough": 32000}
+BUDGET = {"quick": 3200, "thorough": 120000}
 FLOORS = {"quick": {"routine:dmrg_cross": 200, "routine:fi_uni": 100, "routine:fi_multi": 100, "small_mode": 150,
                     "target:ttrank": 150, "start_tensor": 80, "scale:1e-6": 40}}
 SHRINK = {"quick": False, "thorough": True}
